@@ -77,19 +77,39 @@ func C03(c *Ctx) error {
 	n := c.N(150, 2500)
 	type job struct {
 		req  *ir.Request
+		main int // index of the analysed file in req.Files
 		outs map[string]*plug.Result
 		err  error
 	}
 	jobs := make([]*job, n)
 	for i := range jobs {
-		o := gen.RouteOpts{SafeOnly: i%3 == 0, TrailingSlash: i%2 == 1, QueryNameClash: i%5 == 2}
+		o := gen.RouteOpts{SafeOnly: i%3 == 0, TrailingSlash: i%2 == 1, QueryNameClash: i%5 == 2, PathRepeatsBase: i%4 == 1}
 		jobs[i] = &job{req: gen.GenRouteFile(r.Fork(fmt.Sprint("c03-", i)), i, o)}
+		if i%6 == 5 {
+			// a decoy file of ANOTHER package, generated in the same invocation and processed first, whose
+			// service declares RPCs with the same names but other routes: per-RPC state kept across
+			// services or files by a generator shows as a wrong route in the analysed file
+			mainF := jobs[i].req.Files[0]
+			decoy := &ir.File{Name: fmt.Sprintf("decoy%d/decoy.proto", i), Package: "decoy.v1", GoPackage: fmt.Sprintf("example.com/gen/decoy%d;decoypb", i),
+				Messages: []*ir.Message{{Name: "DReq", Fields: []*ir.Field{{Name: "zz", Number: 1, Kind: "string"}}}, {Name: "DResp"}}}
+			for si, s := range mainF.Services {
+				ds := &ir.Service{Name: fmt.Sprintf("Decoy%d", si), BasePath: "/decoy"}
+				for mi, m := range s.Methods {
+					ds.Methods = append(ds.Methods, &ir.Method{Name: m.Name, Input: ".decoy.v1.DReq", Output: ".decoy.v1.DResp",
+						Config: &ir.HTTPConfig{Path: fmt.Sprintf("/d%d/{zz}", mi), Method: []string{"PUT", "PATCH", "POST"}[mi%3]}})
+				}
+				decoy.Services = append(decoy.Services, ds)
+			}
+			jobs[i].req.Files = append([]*ir.File{decoy}, jobs[i].req.Files...)
+			jobs[i].req.Generate = append([]string{decoy.Name}, jobs[i].req.Generate...)
+			jobs[i].main = 1
+		}
 	}
 	parallel(n, func(i int) { jobs[i].outs, jobs[i].err = runAll(jobs[i].req) })
 	// driver batch
 	var dops []map[string]any
 	for _, j := range jobs {
-		f := j.req.Files[0]
+		f := j.req.Files[j.main]
 		for _, s := range f.Services {
 			var ms []any
 			for _, m := range s.Methods {
@@ -114,7 +134,7 @@ func C03(c *Ctx) error {
 		if j.err != nil {
 			return j.err
 		}
-		f := j.req.Files[0]
+		f := j.req.Files[j.main]
 		refused := false
 		for _, p := range plug.All {
 			if !j.outs[p].OK() {
